@@ -93,6 +93,16 @@ RuleScope(r) == SeqUnion(Len(r.head), LAMBDA i : DVE(r.head[i].e)) \cup DVBody(r
 Needed(e, V) == DVE(e) \cup (AVE(e) \cap V)
 Ground(e, bound, V) == Needed(e, V) \subseteq bound
 BareUnbound(e, bound) == e.k = "var" /\ e.name \notin bound
+(* A record expression used as a pattern: every field is an unbound plain    *)
+(* variable or is ground, at least one is an unbound variable, and no        *)
+(* variable is to be bound twice.                                            *)
+RecPattern(e, bound, V) ==
+  /\ e.k = "rec"
+  /\ \A i \in 1..Len(e.fields) : BareUnbound(e.fields[i].e, bound) \/ Ground(e.fields[i].e, bound, V)
+  /\ \E i \in 1..Len(e.fields) : BareUnbound(e.fields[i].e, bound)
+  /\ \A i, j \in 1..Len(e.fields) :
+        (i # j /\ BareUnbound(e.fields[i].e, bound) /\ BareUnbound(e.fields[j].e, bound))
+        => e.fields[i].e.name # e.fields[j].e.name
 
 (* Variables a body can bind by itself (over-approximation, used only to    *)
 (* tell input parameters of injectible predicates from their outputs).      *)
@@ -103,6 +113,9 @@ BindableC(c) ==
     [] c.k = "cmp"   -> {}
     [] c.k = "unify" -> (IF c.l.k = "var" THEN {c.l.name} ELSE {})
                         \cup (IF c.r.k = "var" THEN {c.r.name} ELSE {})
+                        \cup UNION {IF e.k = "rec"
+                                    THEN {e.fields[i].e.name : i \in {j \in 1..Len(e.fields) : e.fields[j].e.k = "var"}}
+                                    ELSE {} : e \in {c.l, c.r}}
     [] c.k = "inc"   -> IF c.l.k = "var" THEN {c.l.name} ELSE {}
     [] c.k = "neg"   -> {}
     [] c.k = "or"    -> SeqUnion(Len(c.alts), LAMBDA i : BindableBody(c.alts[i]))
@@ -154,6 +167,9 @@ Ready(c, bound, V, ctx) ==
     [] c.k = "unify" -> \/ Ground(c.l, bound, V) /\ Ground(c.r, bound, V)
                         \/ BareUnbound(c.l, bound) /\ Ground(c.r, bound, V)
                         \/ Ground(c.l, bound, V) /\ BareUnbound(c.r, bound)
+                        \* {a: x, b: y} == r : assignment to variables in record fields
+                        \/ RecPattern(c.l, bound, V) /\ Ground(c.r, bound, V)
+                        \/ Ground(c.l, bound, V) /\ RecPattern(c.r, bound, V)
     [] c.k = "inc"   -> Ground(c.r, bound, V)
                         /\ (BareUnbound(c.l, bound) \/ Ground(c.l, bound, V))
     [] c.k = "neg"   -> (AVBody(c.body) \cap V) \subseteq bound
@@ -315,6 +331,23 @@ Apply(c, b, V, ctx) ==
          ELSE IF BareUnbound(c.r, bound)
          THEN LET vs == EvalM(c.l, b, V, ctx)
               IN [i \in 1..Len(vs) |-> Bind(b, c.r.name, vs[i])]
+         ELSE IF (RecPattern(c.l, bound, V) /\ Ground(c.r, bound, V))
+                 \/ (RecPattern(c.r, bound, V) /\ Ground(c.l, bound, V))
+         THEN \* the record value is taken apart: unbound field variables are
+              \* bound to the fields, ground fields are compared
+              LET pat == IF RecPattern(c.l, bound, V) /\ Ground(c.r, bound, V) THEN c.l ELSE c.r
+                  oth == IF RecPattern(c.l, bound, V) /\ Ground(c.r, bound, V) THEN c.r ELSE c.l
+                  vs == EvalM(oth, b, V, ctx)
+                  RECURSIVE Take(_, _, _)
+                  Take(v, i, acc) ==
+                    IF i > Len(pat.fields) THEN <<acc>>
+                    ELSE LET fe == pat.fields[i].e
+                             fv == Field(v, pat.fields[i].f)
+                         IN IF BareUnbound(fe, bound)
+                            THEN Take(v, i + 1, Bind(acc, fe.name, fv))
+                            ELSE FlatMap(EvalM(fe, b, V, ctx), LAMBDA w :
+                                   IF Cmp3("==", w, fv) = "t" THEN Take(v, i + 1, acc) ELSE <<>>)
+              IN FlatMap(vs, LAMBDA v : IF v[1] = "r" THEN Take(v, 1, b) ELSE <<>>)
          ELSE LET alts == Cross(<<EvalM(c.l, b, V, ctx), EvalM(c.r, b, V, ctx)>>)
               IN FlatMap(alts, LAMBDA p : IF Cmp3("==", p[1], p[2]) = "t" THEN <<b>> ELSE <<>>)
     [] c.k = "inc" ->
